@@ -455,7 +455,7 @@ std::string sqf::parser::preprocessor::impl_default::instance::replace(::sqf::ru
 }
 std::string sqf::parser::preprocessor::impl_default::instance::handle_arg(::sqf::runtime::runtime& runtime, preprocessorfileinfo& local_fileinfo, preprocessorfileinfo& original_fileinfo, size_t endindex, const std::unordered_map<std::string, std::string>& param_map)
 {
-    size_t word_start = local_fileinfo.off;
+    std::string word;
     bool inside_word = false;
     bool string_mode = false;
     bool part_of_word = false;
@@ -494,8 +494,9 @@ std::string sqf::parser::preprocessor::impl_default::instance::handle_arg(::sqf:
             if (!inside_word)
             {
                 inside_word = true;
-                word_start = local_fileinfo.off - 1;
+                word.clear();
             }
+            word.push_back(c);
             if (local_fileinfo.off != endindex)
             {
                 break;
@@ -505,7 +506,6 @@ std::string sqf::parser::preprocessor::impl_default::instance::handle_arg(::sqf:
             if (inside_word)
             {
                 inside_word = false;
-                auto word = local_fileinfo.content.substr(word_start, local_fileinfo.off - word_start - (!part_of_word ? 1 : 0));
                 auto res = try_get_macro(word);
                 if (res.has_value())
                 {
